@@ -51,6 +51,7 @@ func runC20(c *Ctx) {
 	c.Rule("C20.READS", "WHO: the tables read by the permission-decision closure (CheckPermission, CheckPermissionsBatch and callees) are exactly those the relevance table covers")
 	c.Rule("C20.KEY", "FLOW: every permCache key is built from token id, database, measurement and permission of the request")
 	c.Rule("C20.CASCADE", "CONST: every rbac child table declares ON DELETE CASCADE and the auth DSN enables foreign keys")
+	c.Rule("C20.INVBODY", "PASS: each invalidator (InvalidateAllCache, InvalidateTokenCache) clears or sweeps BOTH cache levels (tokenCache and permCache) on every path to its return")
 	c.Rule("C20.TOKEN", "WHO: every (*AuthManager) mutation of api_tokens permissions/enabled/row reaches an invalidation of the RBAC decision cache, which stores the token-fallback result")
 
 	methods := p.MethodsOf("internal/auth", "RBACManager")
@@ -174,6 +175,7 @@ func runC20(c *Ctx) {
 	}
 	c.Floor("C20.READS", 4, "teams, memberships, roles, measurement permissions")
 
+	c20InvBody(c)
 	inKey := c20Key(c)
 	c20Cascade(c)
 	c20Token(c, inKey)
@@ -365,4 +367,49 @@ func c20Token(c *Ctx, tokenInputsInKey bool) {
 		}
 	}
 	c.Floor("C20.TOKEN", 2, "UpdateToken and ApplyUpdateToken")
+}
+
+// c20InvBody: every path through an invalidator touches both cache maps.
+func c20InvBody(c *Ctx) {
+	touches := func(field string) func(ssa.Instruction) bool {
+		isField := func(v ssa.Value) bool {
+			// a load of rm.<field> or its address
+			if ld, ok := v.(*ssa.UnOp); ok {
+				v = ld.X
+			}
+			_, f, _, ok := fieldOf(v)
+			return ok && f == field
+		}
+		return func(in ssa.Instruction) bool {
+			switch x := in.(type) {
+			case *ssa.Store:
+				return isField(x.Addr)
+			case *ssa.MapUpdate:
+				return isField(x.Map)
+			case *ssa.Range:
+				return isField(x.X)
+			case *ssa.Call:
+				if b, ok := x.Call.Value.(*ssa.Builtin); ok && (b.Name() == "delete" || b.Name() == "clear") && len(x.Call.Args) > 0 {
+					return isField(x.Call.Args[0])
+				}
+			}
+			return false
+		}
+	}
+	for _, name := range []string{"(*internal/auth.RBACManager).InvalidateAllCache", "(*internal/auth.RBACManager).InvalidateTokenCache"} {
+		fn := c.MustFunc("C20.INVBODY", name)
+		if fn == nil {
+			continue
+		}
+		for _, field := range []string{"tokenCache", "permCache"} {
+			exits := pathsAvoiding(fn, nil, touches(field))
+			construct := name + "|" + field
+			if len(exits) == 0 {
+				c.OK("C20.INVBODY", construct, fn.Pos(), "every path clears or sweeps %s", field)
+			} else {
+				c.Bad("C20.INVBODY", construct, exits[0].Instr.Pos(), "return at L%d is reachable without clearing or sweeping %s: decisions cached there survive the invalidation", c.P.Line(exits[0].Instr.Pos()), field)
+			}
+		}
+	}
+	c.Floor("C20.INVBODY", 4, "two invalidators x two cache levels")
 }
